@@ -213,6 +213,8 @@ def main(argv=None):
     verdict = {0: "HELD", 1: "VIOLATED", 2: "INCONCLUSIVE"}[rc]
     print(f"{pid} {verdict} tier={tier} seed={args.seed} evaluations={evals} "
           f"distinct_nontrivial={len(nontrivial)} known={len(known_seen)} wall={wall:.1f}s")
+    slow = sorted(results, key=lambda r: -r["wall"])[:3]
+    print("  slowest shards: " + "; ".join(f"{r['shard'].get('kind')}#{r['idx']}={r['wall']:.1f}s" for r in slow))
     top = ", ".join(f"{k}={v}" for k, v in sorted(counters.items())[:14])
     if top:
         print(f"  counters: {top}")
